@@ -93,6 +93,21 @@ Definition attach_decide (llog : list entry) (lh fh : nat * nat) : attach_decisi
   else let '(tk, k) := highest_le llog (fst fh) in
        if (fst fh =? tk) && (snd fh <=? k) then NoTruncate (snd fh) else TruncateTo tk k.
 
+(* The leader re-checks the head the follower reports after each Truncate and truncates again until the
+   follower's head is an entry the leader also has (fixed behaviour, O-3b): one round is not enough, because
+   entries of a term below [tk] can sit at any offset of the follower's log.  Every round removes at least
+   one entry, so [S (length flog)] rounds suffice. *)
+Fixpoint attach_loop (fuel : nat) (llog : list entry) (lh : nat * nat) (flog : list entry) : option (list entry) :=
+  match fuel with
+  | O => None
+  | S fu =>
+      match attach_decide llog lh (lhead flog) with
+      | NoTruncate _ => Some flog
+      | AttachError => None
+      | TruncateTo tk k => attach_loop fu llog lh (truncate_to flog tk k)
+      end
+  end.
+
 (* ---- quorum counting (quorum_ack_tracker: rf/2 follower acks) ---- *)
 Definition count_ge (c : nat) (acked : list (nat * nat)) : nat :=
   length (filter (fun p => c <=? snd p) acked).
@@ -109,6 +124,10 @@ Fixpoint set_acked (f v : nat) (acked : list (nat * nat)) : list (nat * nat) :=
   | (g, a) :: tl => if g =? f then (g, Nat.max a v) :: tl else (g, a) :: set_acked f v tl
   end.
 Definition is_attached (f : nat) (acked : list (nat * nat)) : bool := existsb (fun p => fst p =? f) acked.
+
+(* NewCursorAcker marks the entries up to the cursor's start as acknowledged by it: the commit offset can advance at attach time *)
+Definition attach_commit (s : nstate) (acked' : list (nat * nat)) : nat :=
+  Nat.max (ncommit s) (qprefix (length (nlog s)) (nrf s) acked').
 
 Definition mem (n : nat) (l : list nat) : bool := existsb (Nat.eqb n) l.
 Fixpoint nodupb (l : list nat) : bool :=
@@ -139,6 +158,7 @@ Inductive action :=
 | RecvAppend (f t o : nat) (e : entry)
 | RecvAck (l f o : nat)
 | AckClient (l o : nat)                         (* commit callback: response to the client *)
+| LearnCommit (f l c : nat)                     (* follower applies entries up to the commit offset advertised by its leader *)
 | Crash (n : nat)                               (* volatile state lost, restart as FENCED *)
 | Swap (from to : nat)                          (* swapNode: ensemble change + new election *)
 | DeleteRemoved.                                (* deletingRemovedNodes after a completed election *)
@@ -206,18 +226,22 @@ Definition step (w : world) (a : action) : option world :=
         match attach_decide (nlog s) lh (lhead flog) with
         | AttachError => None
         | NoTruncate start =>
-            let s' := mkN t (nst s) (nlog s) (nelect s) (nehead s) (nrf s) (ncommit s) ((f, start) :: nacked s) in
+            let s' := mkN t (nst s) (nlog s) (nelect s) (nehead s) (nrf s) (attach_commit s ((f, start) :: nacked s)) ((f, start) :: nacked s) in
             Some (mkW (upd (nodes w) l s') (cterm w) (ens w) (removed w) (resps w) (elected w) (elog w) (tlog w)
                       (appends w) (acks w) (cacked w) (cq w) ((t, f) :: att w))
         | TruncateTo tk k =>
             let sf := nodes w f in
             if (nterm sf =? t) && status_eqb (nst sf) Fenced && negb (nelect sf) then
-              let newlog := truncate_to (nlog sf) tk k in
+             match attach_loop (S (length (nlog sf))) (nlog s) lh (truncate_to (nlog sf) tk k) with
+             | None => None
+             | Some newlog =>
               let sf' := mkN t Follower newlog false 0 0 (ncommit sf) [] in
-              let s' := mkN t (nst s) (nlog s) (nelect s) (nehead s) (nrf s) (ncommit s)
+              let s' := mkN t (nst s) (nlog s) (nelect s) (nehead s) (nrf s)
+                            (attach_commit s ((f, length newlog) :: nacked s))
                             ((f, length newlog) :: nacked s) in
               Some (mkW (upd (upd (nodes w) f sf') l s') (cterm w) (ens w) (removed w) (resps w) (elected w)
                         (elog w) (tlog w) (appends w) (acks w) (cacked w) (cq w) ((t, f) :: att w))
+             end
             else None
         end
       else None
@@ -284,6 +308,14 @@ Definition step (w : world) (a : action) : option world :=
           else None
       | None => None
       end
+  | LearnCommit f l c =>
+      let s := nodes w f in
+      let sl := nodes w l in
+      if (nelect sl || status_eqb (nst sl) Leader) && (nterm sl =? nterm s) && (c <=? ncommit sl)
+         && (c <=? length (nlog s))
+      then Some (set_node w f (mkN (nterm s) (nst s) (nlog s) (nelect s) (nehead s) (nrf s)
+                                   (Nat.max (ncommit s) c) (nacked s)))
+      else None
   | Crash n =>
       let s := nodes w n in
       Some (set_node w n (mkN (nterm s) (if nterm s =? 0 then NotMember else Fenced) (nlog s) false 0 0 (ncommit s) []))
